@@ -6,6 +6,8 @@
 //                            after every loop pass.
 // sub `realtime_never_early` real steady_clock, no hook: asserts only "never early", so that the hook itself
 //                            cannot mask an early fire.
+// sub `wait_arg`             (wait_arg.h) one real loop pass per step with the kernel wait interposed: with a timer armed
+//                            the loop must not ask the kernel for an unlimited sleep, nor for one beyond the deadline.
 //
 // Only public headers are used (Loop, TimerEvent, TimerPool) plus the hook symbol H1 (through vloop.h).
 #define VERIF_MAIN
@@ -32,18 +34,22 @@ enum { CFG, NEW, INIT, ENABLE, DISABLE, DESTROY, ADV, CLEANUP, CANCEL_STALE, WOR
 // callback script actions
 enum { A_NONE, A_DIS_SELF, A_DIS_OTHER, A_EN_OTHER, A_REINIT_OTHER, A_DESTROY_OTHER, A_NEW, A_EN_SELF, A_REINIT_EN_OTHER, A_RESTART_OTHER, A_REINIT_SELF, A_CANCEL_STALE, A_CLEANUP, NACT };
 // clock advance kinds
-enum { ADV_0, ADV_1, ADV_NEXT_M1, ADV_NEXT, ADV_PERIODS, ADV_2P31, ADV_2P40, ADV_RAW, NADV };
+enum { ADV_0, ADV_1, ADV_NEXT_M1, ADV_NEXT, ADV_PERIODS, ADV_2P31, ADV_2P40, ADV_RAW, ADV_2P32M1, ADV_2P32, ADV_2P32P, NADV };
 
 const int kMaxAlive = 12;          // timers alive at once
 const int kMaxTotal = 64;          // timers created per case
 const int kScript = 4;             // script entries per timer (firing number modulo 4)
 const uint64_t kFireCap = 300;     // callbacks per loop pass after which every firing persistent timer disables itself
 const int kGracePasses = 3;        // extra passes (clock unchanged) a due timer is given before it counts as missing
-const int64_t kMaxInterval = 10000000;
+const int64_t kMaxInterval = (int64_t)1 << 41;   // ~69 years; everything in the harness is 64-bit arithmetic
+const int64_t kOldMaxInterval = 10000000;
 const uint64_t kStarts[] = {1000000, 1, (1ull << 31) - 3, (1ull << 32) - 3, 1ull << 52};
 // "this callback takes x ms": the virtual clock moves on INSIDE a timer callback (index 6/7: the acting timer's own interval / +1)
 const uint64_t kDawdle[] = {1, 2, 3, 7, 20, 90, 0, 0};
 const int64_t kCbIntervals[] = {1, 2, 3, 10, 100, 1000, 65536, 10000000};   // intervals chosen by callback actions
+// ... and their huge counterparts (script `extra` bits 5-9 all set): around 2^31, 2^32, 2^33, multiples, 2^40
+const int64_t kCbHuge[] = {((int64_t)1 << 32) + 1, ((int64_t)1 << 32) + 3, (int64_t)1 << 32, ((int64_t)1 << 32) - 1, ((int64_t)1 << 31) + 2,
+                           ((int64_t)1 << 33) + 5, 3 * ((int64_t)1 << 32) + 2, ((int64_t)1 << 40) + 7};
 
 // integer argument: the value itself when it is inside [lo,hi] (friendly to hand-written replays), otherwise reduced
 int64_t argIn(const Op &op, size_t i, int64_t lo, int64_t hi) {
@@ -109,7 +115,8 @@ struct Ctx {
        c_persist_fired = false, c_grace = false, c_cleanup = false, c_reenable = false, c_same_pass_multi = false,
        c_heap_middle = false, c_reinit_self_cb = false,
        c_cleanup_cb = false, c_stale_old_life = false, c_stale_same_life = false, c_stale_cb = false, c_new_life_fired = false,
-       c_cleanup_then_followup_cb = false, c_dawdle = false, c_enable_after_dawdle = false, c_due_within_pass = false, c_work = false;
+       c_cleanup_then_followup_cb = false, c_dawdle = false, c_enable_after_dawdle = false, c_due_within_pass = false, c_work = false,
+       c_iv_ge_2p32 = false, c_iv_2p31_2p32 = false, c_huge_fired = false;
 
   Ctx(const Scenario &s, CaseInfo &i) : scn(s), info(i) {}
 
@@ -156,7 +163,12 @@ struct Ctx {
       x->ev->initialize(std::chrono::milliseconds(interval), oneshot ? Event::Mode::kOneshot : Event::Mode::kPersist);
     }
     max_alive = std::max(max_alive, aliveCount());
+    noteInterval(interval);
     return x;
+  }
+  void noteInterval(uint64_t d) {
+    if (d >= (1ull << 32)) c_iv_ge_2p32 = true;
+    else if (d >= (1ull << 31)) c_iv_2p31_2p32 = true;
   }
   void opEnable(T &x) {   // direct mode only
     if (x.enabled) c_en_while_en = true;   // idempotent: the running interval is not restarted (see NOTES.md)
@@ -176,7 +188,7 @@ struct Ctx {
   }
   void opInit(T &x, uint64_t interval, bool oneshot) {   // direct mode only; initialize() leaves the timer disabled
     if (x.enabled) { c_reinit_en = true; noteKill(x); }
-    x.enabled = false; x.interval = interval; x.oneshot = oneshot;
+    x.enabled = false; x.interval = interval; x.oneshot = oneshot; noteInterval(interval);
     setWhy(x, "re-initialised (which disables)");
     x.ev->initialize(std::chrono::milliseconds(interval), oneshot ? Event::Mode::kOneshot : Event::Mode::kPersist);
   }
@@ -286,6 +298,7 @@ struct Ctx {
     if (!x.oneshot && x.last_pass == pass_no) c_same_pass_multi = true;
     x.last_pass = pass_no;
     (x.oneshot ? c_oneshot_fired : c_persist_fired) = true;
+    if (x.interval >= (1ull << 31)) c_huge_fired = true;
     if (use_pool && x.life > 0) c_new_life_fired = true;
     C02_TRACE("t=%llu  CALLBACK timer %d (deadline %llu, callback %llu since enable at %llu)", (unsigned long long)n, id, (unsigned long long)x.deadline, (unsigned long long)x.fires + 1, (unsigned long long)x.t_enable);
     // model step
@@ -310,7 +323,7 @@ struct Ctx {
     int act = (int)((us & 15) % NACT);
     unsigned sel = (unsigned)((us >> 4) & 63);
     unsigned extra = (unsigned)((us >> 10) & 1023);
-    uint64_t niv = (extra & 8) ? x.interval : (uint64_t)kCbIntervals[extra & 7];   // bit 3: same interval as the acting timer
+    uint64_t niv = (extra & 8) ? x.interval : (uint64_t)(((extra >> 5) & 31) == 31 ? kCbHuge : kCbIntervals)[extra & 7];   // bit 3: same interval as the acting timer; bits 5-9 all set: huge table
     bool nshot = (extra >> 4) & 1;
     unsigned pre = (unsigned)((us >> 20) & 15) % 9, post = (unsigned)((us >> 24) & 15) % 9;   // 0 = none, 1..8 = kDawdle index + 1
     if (pre) dawdle(x, pre - 1);
@@ -380,6 +393,9 @@ struct Ctx {
       }
       case ADV_2P31: if (has) c_huge = true; return 1ull << 31;
       case ADV_2P40: if (has) c_huge = true; return 1ull << 40;
+      case ADV_2P32M1: if (has) c_huge = true; return (1ull << 32) - 1;
+      case ADV_2P32: if (has) c_huge = true; return 1ull << 32;
+      case ADV_2P32P: if (has) c_huge = true; return (1ull << 32) + 1 + x % 16;
       default: return x % 2000;
     }
   }
@@ -523,6 +539,9 @@ struct Ctx {
     info.cls_if(cb_total == 0, "no_callback_at_all");
     info.cls_if(cb_total >= 20, "callbacks>=20");
     info.cls_if(c_grace, "needed_extra_pass");
+    info.cls_if(c_iv_ge_2p32, "interval>=2^32ms");
+    info.cls_if(c_iv_2p31_2p32, "interval_in_[2^31,2^32)ms");
+    info.cls_if(c_huge_fired, "timer_with_interval>=2^31ms_fired");
     info.cls_if(c_dawdle, "callback_takes_time_(clock_moves_inside_pass)");
     info.cls_if(c_enable_after_dawdle, "enable_in_callback_after_clock_moved_inside_pass");
     info.cls_if(c_due_within_pass, "deadline_reached_only_while_pass_was_running");
@@ -589,24 +608,40 @@ Scenario expand(int64_t seed, int size) {
     switch (m) {
       case 0: return pick({{3, 1}, {2, 2}, {2, 3}, {1, 4}, {1, 5}, {1, 7}, {1, 10}});
       case 1: return rng(0, 1) ? rng(10, 1000) : pick({{2, 10}, {1, 100}, {1, 1000}});
-      default: return rng(0, 2) == 0 ? rng(100000, kMaxInterval) : pick({{1, 65536}, {1, 1000000}, {2, kMaxInterval}});
+      default: return rng(0, 2) == 0 ? rng(100000, kOldMaxInterval) : pick({{1, 65536}, {1, 1000000}, {2, kOldMaxInterval}});
+    }
+  };
+  // a fifth of the cases: a tail of huge intervals around 2^31, 2^32 (49.7 days), 2^33, multiples of 2^32, 2^40 ms, mostly
+  // "boundary + a few ms" so that a truncated interval would come due within the first small clock advances
+  bool hugecase = rng(0, 4) == 0;
+  auto hugeIv = [&]() -> int64_t {
+    const int64_t B31 = (int64_t)1 << 31, B32 = (int64_t)1 << 32;
+    int64_t x = pick({{3, 1}, {2, 2}, {2, 3}, {1, 5}, {1, 10}, {1, 1000}});
+    switch (pick({{2, 0}, {1, 1}, {2, 2}, {3, 3}, {3, 4}, {8, 5}, {3, 6}, {3, 7}, {2, 8}, {2, 9}, {1, 10}})) {
+      case 0: return B31 - x; case 1: return B31; case 2: return B31 + x;
+      case 3: return B32 - 1; case 4: return B32; case 5: return B32 + x;
+      case 6: return 2 * B32 + x; case 7: return rng(2, 200) * B32 + x; case 8: return rng(2, 255) * B32;
+      case 9: return ((int64_t)1 << 40) + x; default: return rng(B31, (int64_t)1 << 40);
     }
   };
   int npal = (int)rng(1, 3); int64_t pal[3];
   for (int i = 0; i < npal; ++i) pal[i] = fresh(mag);
-  auto iv = [&]() -> int64_t { return rng(0, 9) < 7 ? pal[rng(0, npal - 1)] : fresh(mag); };
+  if (hugecase && rng(0, 1)) pal[rng(0, npal - 1)] = hugeIv();
+  auto iv = [&]() -> int64_t { if (hugecase && rng(0, 9) < 3) return hugeIv(); return rng(0, 9) < 7 ? pal[rng(0, npal - 1)] : fresh(mag); };
   bool slowcase = rng(0, 2) == 0;   // a third of the cases: callbacks that take time (the clock moves on inside a loop pass)
   auto script = [&]() -> int64_t {
     int64_t act = pick({{8, A_NONE}, {2, A_DIS_SELF}, {4, A_DIS_OTHER}, {2, A_EN_OTHER}, {2, A_REINIT_OTHER}, {3, A_DESTROY_OTHER}, {2, A_NEW}, {2, A_EN_SELF}, {2, A_REINIT_EN_OTHER}, {2, A_RESTART_OTHER}, {2, A_REINIT_SELF}, {pool ? 2 : 0, A_CANCEL_STALE}, {pool ? 1 : 0, A_CLEANUP}});
     int64_t slow = 0;   // bits 20-23: the callback takes time before its action, bits 24-27: after it
     if (slowcase && rng(0, 1)) slow = (rng(0, 2) ? rng(1, 8) : 0) * (1 << 20) + (rng(0, 2) == 0 ? rng(1, 8) : 0) * (1 << 24);
     if (act == A_NONE && !slow) return 0;
-    return act + 16 * rng(0, 63) + 1024 * rng(0, 1023) + slow;
+    int64_t extra = rng(0, 1023);
+    if (hugecase && rng(0, 9) < 3) extra |= 31 << 5; else if (((extra >> 5) & 31) == 31) extra &= ~(1 << 5);   // huge callback intervals only in huge cases
+    return act + 16 * rng(0, 63) + 1024 * extra + slow;
   };
   bool quiet = rng(0, 5) == 0;   // a sixth of the cases: no scripts at all (pure outside-callback histories)
   auto mkNew = [&]() { mk(NEW, {iv(), pick({{3, 0}, {2, 1}}), quiet ? 0 : script(), quiet ? 0 : script(), quiet ? 0 : script(), quiet ? 0 : script()}); };
   auto advOp = [&]() {
-    int64_t kind = pick({{4, ADV_0}, {6, ADV_1}, {10, ADV_NEXT_M1}, {24, ADV_NEXT}, {16, ADV_PERIODS}, {1, ADV_2P31}, {1, ADV_2P40}, {6, ADV_RAW}});
+    int64_t kind = pick({{4, ADV_0}, {6, ADV_1}, {10, ADV_NEXT_M1}, {24, ADV_NEXT}, {16, ADV_PERIODS}, {1, ADV_2P31}, {1, ADV_2P40}, {6, ADV_RAW}, {hugecase ? 1 : 0, ADV_2P32M1}, {hugecase ? 1 : 0, ADV_2P32}, {hugecase ? 1 : 0, ADV_2P32P}});
     mk(ADV, {kind, rng(0, 4095)});
   };
   int n0 = (int)rng(3, 9);
@@ -754,3 +789,6 @@ SubDef def_rt = [] {
 VERIF_REGISTER(&def_rt);
 
 }  // namespace
+
+// sub `wait_arg`: the timeout the loop hands to the kernel while timers are armed (interposed epoll_wait / select)
+#include "wait_arg.h"
